@@ -12,7 +12,7 @@ S13.3 parenthesis accounting in tokens_to_operator_tree: `(` pushes exactly one 
 S13.4 eager arity: every fixed-arity arm of Operator::eval / eval_mut checks its own arity before anything else.
 Not decided: completeness of the rejection (depends on the run-time shape of the partially built tree)."""
 import tables
-from absint import Interp, SYM, C, ADT, fmt, is_adt, Budget, apps
+from absint import Interp, SYM, C, ADT, OK, ERR, Fork, fmt, is_adt, Budget, apps
 from mirlib import (short, callee_matches, op_place, resolve_place, const_value, question_mark, switch_on_discriminant,
                     call_result_bool_edges, is_local, path_endswith)
 from rules.treepaths import opaque_hook, calls_of, branches_of, is_true, seed
@@ -96,98 +96,165 @@ def modes(ctx, prog, T):
 
 
 def s13_3(ctx, prog):
+    """parenthesis accounting, decided by interpreting tokens_to_operator_tree on the token lists [], [`(`] and [`)`] with the builder
+    functions abstract and every `root_stack.len()` a fresh unknown: what matters are the events on root_stack (push of a fresh root
+    node, pop, collapse_all_sequences) and the depth tests that guard them - not the shape of the code that performs them."""
+    f = prog.fn('tree::tokens_to_operator_tree')
+    if f is None:
+        ctx.unrecognised('S13.3', 'tokens_to_operator_tree', 'missing', 'not found')
+        return
+    tok = prog.adt(tables.TOKEN)
+
+    def T(name):
+        v = [x for x in tok['variants'] if x['name'] == name][0]
+        return ADT(tok['path'], v['idx'], name, [])
+    counter = [0]
+
+    def extra(it, fn, t, args):
+        c = t['callee']
+        if c.get('local') and c['name'] == 'insert_back_prioritized':
+            return OK(('tuple', ()))
+        if c.get('local') and c['name'] == 'collapse_all_sequences':
+            return Fork([OK(('tuple', ())), ERR(SYM('collapse_error'))])
+        if c.get('local') and c['name'] == 'collapse_root_stack_to':
+            return OK(SYM('collapsed'))
+        if c['name'] == 'len' and not c.get('local') and 'vec::Vec' in c['def']:
+            counter[0] += 1
+            return ('app', 'len#%d' % counter[0], tuple(args))
+        return None
+
+    def run(tokens):
+        return Interp(prog, hook=opaque_hook(extra=extra), max_steps=400000).paths(f, [('tuple', tuple(tokens))])
+
+    def events(eff, rs):
+        """ordered events on root_stack: ('push-root' | 'push' | 'pop' | 'collapse' | 'insert'), and the depth tests taken"""
+        ev, tests = [], []
+        for e in eff:
+            if e[0] == '<branch>':
+                v, taken = e[2]
+                if v[0] == 'app' and v[1].startswith('binop:') and len(v[2]) == 2:
+                    a, b = v[2]
+                    op = v[1].split(':')[1]
+                    ln, cst, flip = None, None, False
+                    if a[0] == 'app' and a[1].startswith('len#') and a[2] == (rs,) and b[0] == 'c':
+                        ln, cst = a, b[1]
+                    elif b[0] == 'app' and b[1].startswith('len#') and b[2] == (rs,) and a[0] == 'c':
+                        ln, cst, flip = b, a[1], True
+                    if ln is not None and op in ('Gt', 'Ge', 'Lt', 'Le', 'Eq', 'Ne') and isinstance(cst, int):
+                        def holds(n, op=op, cst=cst, flip=flip, taken=taken):
+                            x, y = (cst, n) if flip else (n, cst)
+                            r = {'Gt': x > y, 'Ge': x >= y, 'Lt': x < y, 'Le': x <= y, 'Eq': x == y, 'Ne': x != y}[op]
+                            return r == is_true(taken)
+                        tests.append(holds)
+                continue
+            if e[0].startswith('<'):
+                continue
+            nm = e[0].split('::')[-1]
+            a = e[2]
+            if nm == 'push' and len(a) == 2 and a[0] == rs:
+                ev.append('push-root' if (a[1][0] == 'app' and a[1][1].split('::')[-1] == 'root_node') else 'push')
+            elif nm == 'pop' and a and a[0] == rs:
+                ev.append('pop')
+            elif nm == 'collapse_all_sequences' and a and a[0] == rs:
+                ev.append('collapse')
+            elif nm == 'insert_back_prioritized':
+                ev.append('insert')
+        return ev, tests
     try:
-        t2o, f, place, dsp = tables.token_to_operator(prog)
-    except tables.TableError as e:
-        ctx.unrecognised('S13.3', 'token-match', 'shape', str(e))
+        p0 = run([])
+        pl = run([T('LBrace')])
+        pr = run([T('RBrace')])
+    except Budget:
+        ctx.unrecognised('S13.3', 'tokens_to_operator_tree', 'budget', 'too complex', span=f.span)
         return
-    # LBrace arm: exactly one root_node() pushed on root_stack, no operator node
-    lb = t2o['LBrace']['blocks']
-    calls = [(b, f.term(b)) for b in lb if f.term(b)['k'] == 'call']
-    names = [short(t['callee']['def']).split('::')[-1] for _, t in calls]
-    pushes = [t for _, t in calls if callee_matches(t, ['vec::Vec::<T, A>::push'])]
-    okk = names.count('root_node') == 1 and len(pushes) == 1 and t2o['LBrace']['operators'] == []
-    if okk:
-        a0 = resolve_place(f, op_place(pushes[0]['args'][0]))
-        okk = f.local_name(a0['l']) == 'root_stack'
-    ctx.check(okk, 'S13.3', 'LBrace', 'lbrace', '`(` pushes exactly one RootNode onto root_stack and yields no operator node (calls: %s)' % names, span=f.span)
-    # RBrace arm
-    rb = set(t2o['RBrace']['blocks'])
-    lens = [(b, f.term(b)) for b in rb if f.term(b)['k'] == 'call' and f.term(b)['callee']['name'] == 'len']
-    pops = [(b, f.term(b)) for b in rb if callee_matches(f.term(b), ['vec::Vec::<T, A>::pop'])]
-    colls = [(b, f.term(b)) for b in rb if callee_matches(f.term(b), ['tree::collapse_all_sequences'])]
-    errs = []
-    for b in rb:
-        for st in f.stmts(b):
-            if st['k'] == 'assign' and st['rv']['k'] == 'aggregate' and st['rv'].get('agg') == 'adt' and path_endswith(st['rv']['adt'], 'error::EvalexprError'):
-                errs.append((b, st['rv']['vname']))
-    good = len(lens) == 1 and len(pops) == 1 and len(colls) == 1 and [e[1] for e in errs] == ['UnmatchedRBrace']
-    detail = 'len calls %d, pops %d, collapse calls %d, errors %s' % (len(lens), len(pops), len(colls), [e[1] for e in errs])
-    if good:
-        # comparison `len <= 1` (or `len < 2`, `len > 1` ...) decides between error and pop
-        lb_, lt = lens[0]
-        cmp_ok = False
-        tgt = lt['target']
-        for st in f.stmts(tgt):
-            if st['k'] == 'assign' and st['rv']['k'] == 'binop' and st['rv']['op'] in ('Le', 'Lt', 'Gt', 'Ge'):
-                opn = st['rv']['op']
-                c = const_value(st['rv']['b'])
-                sw = f.term(tgt)
-                if sw['k'] == 'switch' and c is not None:
-                    false_t = [tg for v, tg in sw['targets'] if v == 0][0]
-                    true_t = sw['otherwise']
-                    closed_when_true = (opn == 'Le' and c == 1) or (opn == 'Lt' and c == 2)
-                    closed_when_false = (opn == 'Gt' and c == 1) or (opn == 'Ge' and c == 2)
-                    if closed_when_true or closed_when_false:
-                        err_edge = (tgt, true_t) if closed_when_true else (tgt, false_t)
-                        ok_edge = (tgt, false_t) if closed_when_true else (tgt, true_t)
-                        cmp_ok = f.edge_dominates(err_edge, errs[0][0]) and f.edge_dominates(ok_edge, pops[0][0]) and f.edge_dominates(ok_edge, colls[0][0])
-        qm = question_mark(f, colls[0][0])
-        cmp_ok = cmp_ok and qm is not None and f.edge_dominates((qm['switch'], qm['cont']), pops[0][0])
-        good = cmp_ok
-        detail += '; depth test / collapse-before-pop dominance %s' % cmp_ok
-    ctx.check(good, 'S13.3', 'RBrace', 'rbrace', '`)` returns UnmatchedRBrace when no parenthesis level is open (root_stack.len() <= 1), otherwise collapses the level\'s sequences and pops exactly one node (%s)' % detail, span=f.span)
-    # end of input: collapse_all_sequences?; len > 1 -> UnmatchedLBrace; pop -> Ok
-    exit_block = None
-    for b in f.live_blocks():
-        sw = switch_on_discriminant(f, b)
-        if sw is None:
-            continue
-        # the loop switch is on the Option returned by `token_iter.next().cloned()`
-        for st in f.stmts(b):
-            pass
-        pl = sw[0]
-        if is_local(pl):
-            from mirlib import def_roots
-            roots = def_roots(f, pl['l'])
-            if any(r[1] == 'term' and r[2]['callee']['name'] == 'cloned' for r in roots) and len(sw[1]) == 1 and sw[1][0][0] == 1:
-                # the Option feeding the `while let`
-                cand = sw[2]
-                # choose the one whose None edge reaches a return without passing the token match
-                exit_block = cand if exit_block is None else exit_block
-    if exit_block is None:
-        ctx.unrecognised('S13.3', 'end-of-input', 'shape', 'loop exit of tokens_to_operator_tree not recognised', span=f.span)
+    rs = None
+    for ret, eff in p0:
+        for e in eff:
+            if not e[0].startswith('<') and e[0].split('::')[-1] == 'collapse_all_sequences' and e[2]:
+                rs = e[2][0]
+    if rs is None:
+        ctx.unrecognised('S13.3', 'end-of-input', 'shape', 'the end of input does not call collapse_all_sequences(root_stack)', span=f.span)
         return
-    it = Interp(prog, hook=opaque_hook())
-    out = []
-    it._run(f, exit_block, seed(f, {'root_stack'}), 0, out, (), {})
+
+    def err(ret, name):
+        return is_adt(ret, 'result::Result', 'Err') and is_adt(ret[4][0], 'error::EvalexprError', name)
+    # ---- end of input (empty token list)
     shapes = set()
-    for ret, eff in out:
-        br = branches_of(eff)
-        if is_adt(ret, 'result::Result', 'Err') and is_adt(ret[4][0], 'error::EvalexprError'):
-            cond = [fmt(v) + '=' + fmt(t) for v, t in br if 'len' in fmt(v)]
-            shapes.add(('Err', ret[4][0][3], tuple(cond)))
-        elif is_adt(ret, 'result::Result', 'Err'):
-            shapes.add(('Err', 'propagated:' + ('collapse_all_sequences' if 'collapse_all_sequences' in fmt(ret) else fmt(ret)), ()))
+    good = True
+    for ret, eff in p0:
+        if ret == ('diverge',):
+            continue
+        ev, tests = events(eff, rs)
+        deep = bool(tests) and all(h(2) for h in tests) and not all(h(1) for h in tests)     # taken exactly when more than one level remains
+        shallow = bool(tests) and all(h(1) for h in tests) and not all(h(2) for h in tests)
+        if ret == ERR(SYM('collapse_error')):
+            shapes.add('collapse-error')
+            good = good and ev == ['collapse']
+        elif err(ret, 'UnmatchedLBrace'):
+            shapes.add('UnmatchedLBrace')
+            good = good and deep and ev == ['collapse']
+        elif err(ret, 'UnmatchedRBrace'):
+            shapes.add('UnmatchedRBrace')
+            good = good and ev == ['collapse', 'pop']
         elif is_adt(ret, 'result::Result', 'Ok'):
-            shapes.add(('Ok', 'pop' if 'pop' in fmt(ret) else fmt(ret), ()))
+            shapes.add('Ok')
+            good = good and shallow and ev == ['collapse', 'pop'] and any(n_.split('::')[-1].split('#')[0] == 'pop' and x_ and x_[0] == rs for n_, x_ in apps(ret))
         else:
-            shapes.add(('?', fmt(ret), ()))
-    kinds = sorted((s[0], s[1]) for s in shapes)
-    want = [('Err', 'UnmatchedLBrace'), ('Err', 'UnmatchedRBrace'), ('Err', 'propagated:collapse_all_sequences'), ('Ok', 'pop')]
-    lb_cond = [s[2] for s in shapes if s[1] == 'UnmatchedLBrace']
-    cond_ok = bool(lb_cond) and all(any('binop:Gt(' in c and c.endswith('=$otherwise') and ', 1)' in c for c in cs) for cs in lb_cond)
-    ctx.check(kinds == want and cond_ok, 'S13.3', 'end-of-input', 'end', 'at the end the remaining sequences are collapsed, more than one remaining level is UnmatchedLBrace, otherwise the single root is returned (outcomes %s, UnmatchedLBrace condition %s)' % (kinds, lb_cond), span=f.span)
+            shapes.add('? ' + fmt(ret)[:60])
+    ctx.check(good and shapes == {'collapse-error', 'UnmatchedLBrace', 'UnmatchedRBrace', 'Ok'}, 'S13.3', 'end-of-input', 'end',
+              'at the end the remaining sequences are collapsed (errors passed on), more than one remaining level is UnmatchedLBrace, otherwise the single root is popped and returned (outcomes %s)' % sorted(shapes), span=f.span)
+    # ---- `(`: exactly one fresh root node pushed, no operator node
+    good = bool(pl)
+    n_l = 0
+    for ret, eff in pl:
+        if ret == ('diverge',):
+            continue
+        ev, _t = events(eff, rs)
+        n_l += 1
+        good = good and ev[:1] == ['push-root'] and ev.count('push-root') == 1 and 'insert' not in ev and 'push' not in ev
+    ctx.check(good and n_l >= 1, 'S13.3', 'LBrace', 'lbrace', '`(` pushes exactly one RootNode onto root_stack and yields no operator node (%d paths)' % n_l, span=f.span)
+    # ---- `)`: UnmatchedRBrace when no level is open, otherwise collapse the level and pop exactly one node
+    ctx.assume('the node popped for `)` after collapse_all_sequences is the level\'s RootNode, not a sequence node (C05 S5.2: collapsing stays inside the level)')
+    good = bool(pr)
+    seen = set()
+    why = []
+    for ret, eff in pr:
+        if ret == ('diverge',):
+            continue
+        ev, tests = events(eff, rs)
+        first_test = tests[:1]
+        if not good and not why:
+            why.append('previous path')
+        was = good
+        # the node a `)` takes off the stack is the level's RootNode (after collapse_all_sequences the top of the stack is the level's
+        # root): paths on which the interpreter, not knowing that, treats it as a sequence operator are not feasible
+        as_seq = [is_true(tk) for v, tk in branches_of(eff) if v[0] == 'app' and v[1] == 'is_sequence' and any(n_.split('::')[-1].split('#')[0] == 'pop' and x_ and x_[0] == rs for n_, x_ in apps(v))]
+        if as_seq[:1] == [True]:
+            continue
+        if ev == [] and err(ret, 'UnmatchedRBrace'):
+            seen.add('closed-error')
+            good = good and bool(first_test) and first_test[0](1) and not first_test[0](2)
+        elif ev[:1] == ['collapse']:
+            good = good and bool(first_test) and first_test[0](2) and not first_test[0](1)
+            if ret == ERR(SYM('collapse_error')) and ev == ['collapse']:
+                seen.add('collapse-error')
+            else:
+                seen.add('closed-level')
+                # the level: collapse, then exactly one pop (the popped group goes into the enclosing level), then the end-of-input sequence
+                good = good and ev[:2] == ['collapse', 'pop']
+                if 'collapse' in ev[1:]:
+                    # the level was closed without an error and the end of input was reached: the enclosing root may have been taken
+                    # off and put back to receive the group, the net effect is one node fewer and no new level
+                    level = ev[:ev.index('collapse', 1)]
+                    good = good and level.count('pop') - level.count('push') == 1 and 'push-root' not in level
+                else:
+                    good = good and is_adt(ret, 'result::Result', 'Err') or ret[0] != 'adt' 
+        else:
+            good = False
+            seen.add('? %s %s' % (ev[:4], fmt(ret)[:40]))
+        if was and not good:
+            why.append('%s -> %s' % (ev, fmt(ret)[:50]))
+    ctx.check(good and {'closed-error', 'closed-level'} <= seen, 'S13.3', 'RBrace', 'rbrace', '`)` returns UnmatchedRBrace when no parenthesis level is open (root_stack.len() <= 1), otherwise collapses the level\'s sequences and pops exactly one node (cases %s; first deviating path %s)' % (sorted(seen), why[:1]), span=f.span)
 
 
 def s13_4(ctx, prog, T):
